@@ -317,14 +317,83 @@ def _order(repo, rep):
               "the default encoding is utf-8", construct="default-encoding")
 
 
+def _bom_outcomes(rb, P):
+    """(mode ok, type ok, outcomes, detail) for the returns of read_bytes
+    that follow the decoding of a BOM-carrying document"""
+    okm = okt = True
+    n = 0
+    detail = ""
+    for p in P.enum_paths(rb.node.body, unroll=1):
+        if p[-1][0] != "return" or p[-1][1] is None:
+            continue
+        doc = None
+        env = {}
+        for ev in p:
+            if ev[0] == "assign":
+                tgt = ev[1].strip("()")
+                if "," in tgt and isinstance(ev[2], ast.Call):
+                    for i, nm in enumerate(x.strip() for x in
+                                           tgt.split(",")):
+                        env[nm] = ast.Subscript(
+                            ev[2], ast.Constant(i), ast.Load())
+                else:
+                    env[tgt] = ev[2]
+                if ".decode(" in src(ev[2]) and "len(bom)" in src(ev[2]):
+                    doc = tgt
+        if doc is None:
+            continue
+        rv = p[-1][1]
+        if not (isinstance(rv, ast.Tuple) and len(rv.elts) == 3):
+            okm = False
+            detail = "return %s" % src(rv)
+            continue
+        conds = [(src(e[1]), e[2]) for e in p if e[0] == "cond"]
+        todo = [(rv.elts[2], conds)]
+        while todo:
+            e, cs = todo.pop()
+            if isinstance(e, ast.Name) and e.id in env:
+                e = env[e.id]
+            if isinstance(e, ast.IfExp):
+                c = P._cond(e.test, True, None)
+                todo.append((e.body, cs + [(src(c[1]), c[2])]))
+                todo.append((e.orelse, cs + [(src(c[1]), not c[2])]))
+                continue
+            n += 1
+            test = "%s.startswith('<?xml')" % doc
+            if isinstance(e, ast.Constant) and e.value == "text/xml":
+                if not L.cond_holds(cs, test, True):
+                    okm = False
+                    detail = "'text/xml' returned without testing %s" % test
+                continue
+            if not L.cond_holds(cs, test, False):
+                okm = False
+                detail = "%s returned for a document that may start with " \
+                         "<?xml" % src(e)
+            calls = [c for c in ast.walk(e) if isinstance(c, ast.Call)
+                     and src(c.func).split(".")[-1] == "detect_encoding"
+                     and c.args and src(c.args[0]) == doc]
+            if not calls:
+                okt = False
+                detail = "content type %s does not come from " \
+                         "detect_encoding(%s, ...)" % (src(e), doc)
+    return okm, okt, n, detail
+
+
 def _mode(repo, rep):
     rb = repo.func(U + "read_bytes")
     site = rb.qualname
-    t = L.text(rb.node)
-    rep.check("'text/xml' if document.startswith('<?xml') else None" in t,
-              "R17.3", site, "a BOM-carrying document is XML iff, after "
-              "decoding, it starts with an XML declaration",
-              construct="bom-mode", where=L.where(rb))
+    from .. import paths as P
+    okm, okt, n_bom, detail = _bom_outcomes(rb, P)
+    rep.check(okm and n_bom >= 2, "R17.3", site, "a BOM-carrying document is "
+              "XML iff, after decoding, it starts with an XML declaration",
+              construct="bom-mode", where=L.where(rb),
+              detail=detail or "%d outcome(s)" % n_bom)
+    rep.check(okt and n_bom >= 2, "R17.3", site, "a BOM-carrying document "
+              "that is not XML reports the content type of its meta element "
+              "like the same document supplied as str (detect_encoding on "
+              "the decoded text), not a constant",
+              construct="bom-meta-type", where=L.where(rb),
+              detail=detail or "%d outcome(s)" % n_bom)
     for q, reader in (("chameleon.template.BaseTemplate.write", "read_bytes"),
                       ("chameleon.template.BaseTemplateFile.read",
                        "read_bytes")):
